@@ -604,7 +604,7 @@ func init() {
 		ID:    "C19",
 		Level: "exploration",
 		Rule: "well-nested event streams (TxStart Start JP* Body JP* End TxEnd; Body = (Enter JP* Body JP* Exit)*; JP = AspectEnter (Enter Body Exit)^{0..2} AspectExit; 0-3 Aspects per join point) are fed directly to callTracer and flatCallTracer (8 configurations) through their EVMLogger+AspectLogger methods; GetResult() must not panic and must equal the tree rebuilt from the same stream (every frame and Aspect execution exactly once under its issuer, own gasUsed/output/error; flat: unique prefix-closed trace addresses, children 0..k-1, subtraces = emitted children). " +
-			"kind skel: exhaustive over a skeleton family (top frame: 0-2 pre Aspects x 0-2 calls in the first x 0-2 body calls x 0-2 post Aspects x 0-2 calls in the first; first body call: 0-2 pre x 0-2 calls x 0-2 post) ; kind rnd: random deeper trees (depth<=3, width<=3, precompile targets, all call kinds); distinct_nontrivial = distinct streams containing at least one Aspect execution or nested call",
+			"kind skel: exhaustive over a skeleton family (top frame: 0-2 pre Aspects x 0-2 calls in the first x 0-2 body calls x 0-2 post Aspects x 0-2 calls in the first; first body call: 0-2 pre x 0-2 calls x 0-2 post) ; kind rnd: random deeper trees (depth<=3, width<=3; every fourth one depth<=6, width<=2, i.e. trace addresses up to length 6 with siblings at every level; precompile targets, all call kinds); distinct_nontrivial = distinct streams containing at least one Aspect execution or nested call",
 		Assumptions: []string{
 			"documented design filters are modelled, not asserted against: CALL/STATICCALL to precompiles dropped by flatCallTracer unless includePrecompiles; with onlyTopCall only the top frame and its own Aspect executions are asserted",
 			"streams are well nested; Aspect executions at one frame do not overlap (they are sequential in the VM)",
@@ -630,7 +630,10 @@ func init() {
 	})
 }
 
-func genFspec(r *h.RNG, depth int, inAspect bool) *fspec {
+// maxDepthC19 bounds the random streams (6 for the deep variant: trace addresses of length 5).
+func genFspec(r *h.RNG, depth int, inAspect bool) *fspec { return genFspecD(r, depth, inAspect, 3, 3) }
+
+func genFspecD(r *h.RNG, depth int, inAspect bool, maxDepth, maxWidth int) *fspec {
 	f := &fspec{typ: h.Pick(r, []byte{h.CALL, h.CALL, h.CALL, h.STATICCALL, h.DELEGATECALL, h.CALLCODE, h.CREATE, h.CREATE2}), errKind: r.Intn(5)}
 	if depth == 0 {
 		f.typ = h.Pick(r, []byte{h.CALL, h.CALL, h.CALL, h.CREATE})
@@ -658,8 +661,8 @@ func genFspec(r *h.RNG, depth int, inAspect bool) *fspec {
 			if r.Chance(40) {
 				nc = 1 + r.Intn(2)
 			}
-			for c := 0; c < nc && depth < 3; c++ {
-				a.calls = append(a.calls, genFspec(r, depth+1, true))
+			for c := 0; c < nc && depth < maxDepth; c++ {
+				a.calls = append(a.calls, genFspecD(r, depth+1, true, maxDepth, maxWidth))
 			}
 			out = append(out, a)
 		}
@@ -668,10 +671,13 @@ func genFspec(r *h.RNG, depth int, inAspect bool) *fspec {
 	if f.typ == h.CALL {
 		f.pre, f.post = asp(), asp()
 	}
-	if depth < 3 {
-		w := r.Intn(4)
+	if depth < maxDepth {
+		w := r.Intn(maxWidth + 1)
+		if maxDepth > 3 && w == 0 && depth < maxDepth-1 {
+			w = 1 // deep variant: keep the spine going
+		}
 		for i := 0; i < w; i++ {
-			f.children = append(f.children, genFspec(r, depth+1, inAspect))
+			f.children = append(f.children, genFspecD(r, depth+1, inAspect, maxDepth, maxWidth))
 		}
 	}
 	return f
@@ -716,6 +722,9 @@ func runC19(c Case, tier string) (res CaseResult) {
 	case "rnd":
 		r := h.NewRNG(c.Seed)
 		spec := genFspec(r, 0, false)
+		if c.Seed%4 == 0 {
+			spec = genFspecD(r, 0, false, 6, 2) // deep, narrow streams: long trace addresses with siblings at every level
+		}
 		checkStream(&res, spec, active)
 		res.Evals = int64(len(c19Configs))
 		if c.Seed%71 == 0 {
